@@ -284,6 +284,12 @@ class Parallel:
         except Exception as exc:
             exc.device_id = task_result.device_id
             exc.formatted_output = traceback.format_exc()
+            try:
+                pickle.loads(pickle.dumps(exc))
+            except Exception:
+                # an in-thread callback's error travels to the parent through the result queue: an exception that cannot be
+                # re-created there (a constructor with its own signature, ...) would abort the whole run in done_queue.get
+                exc = PickleSafeException.from_exc(exc, task_result.device_id)
             task_result.exc = exc
             task_results = [task_result]
         yield from task_results
